@@ -447,7 +447,7 @@ impl Prop for C20 {
         false
     }
     fn n_cases(&self, tier: Tier) -> u64 {
-        tier.pick(20_000, 400_000)
+        tier.pick(200_000, 400_000)
     }
     fn time_cap_s(&self, tier: Tier) -> u64 {
         tier.pick(90, 900)
